@@ -79,6 +79,8 @@ def setup():
     for name in ("_closed", "_is_reading"):
         if not isinstance(inotify_c.Inotify.__dict__.get(name), ds.YieldAttr):
             setattr(inotify_c.Inotify, name, ds.YieldAttr(name))
+    import logging
+    logging.getLogger("watchdog").setLevel(logging.CRITICAL)
     _installed = True
 
 
@@ -311,16 +313,26 @@ class PlacedChooser:
     """Let the closing client run only from global step k on, then run it to completion whenever it is
     ready ('close() placed at step k of the read loop'); everything else is chosen at random."""
 
-    def __init__(self, k, seed, closer="closer"):
+    def __init__(self, k, seed, closer="closer", by_reader_ops=False):
         import random
         self.k = k
         self.r = random.Random(seed)
         self.closer = closer
+        self.by_reader_ops = by_reader_ops
+        self.rec = None
+
+    def bind(self, rec):
+        self.rec = rec
+
+    def position(self, s):
+        if self.by_reader_ops and self.rec is not None:
+            return sum(1 for op in self.rec.ops if op[0] == "R")
+        return s.steps
 
     def choose(self, s, ready, can_tick):
         cl = [t for t in ready if t.name == self.closer]
         others = [t for t in ready if t.name != self.closer]
-        if s.steps >= self.k and cl:
+        if self.position(s) >= self.k and cl:
             return cl[0]
         if others:
             if s.current in others and self.r.random() < 0.6:
@@ -356,6 +368,8 @@ def run_proto_once(chooser, scenario, root, max_steps=4000):
     name, level, feeds, prog = scenario
     env = Env(chooser, max_steps)
     s, k, rec = env.sched, env.kernel, env.rec
+    if hasattr(chooser, "bind"):
+        chooser.bind(rec)
     info = {"reader": None, "closed_returned": False, "obj": None}
     try:
         def closer():
@@ -518,7 +532,7 @@ def check_lockstep(res: Result, batch):
         if ok and o and o[-1] != "ne" and o[-1][0] == "ok" and len(o) == len(ops):
             fin = o[-1]
             m_done = fin[10] == "RDone"
-            if run["have_reader"] and m_done != run["reader_done"] and not run["sched"].uncaught():
+            if run["have_reader"] and m_done != run["reader_done"] and not run.get("uncaught"):
                 res.mismatches.append(Mismatch("CloseProto reader_done", meta, fin, f"reader thread finished={run['reader_done']}"))
 
 
@@ -536,13 +550,27 @@ def interleaved(ops):
 
 
 def placement(ops):
-    """Which reader step the (first) close() section came after: for the histogram."""
+    """After which step of the buffer thread's loop the first close() took the lock (for the histogram):
+    check | sec1-rel (before poll) | poll (before read) | read / poll-pipe (before section 2) | sec2-rel (between
+    sections 2 and 3) | sec3-rel (before the next loop test) | returned-closed (section 1 saw _closed)."""
     last_r = "before-first-step"
+    sec = 0
     for op in ops:
         if op[0] == "C" and op[1] == "acq":
             return last_r
         if op[0] == "R":
-            last_r = op[1] + ("" if op[1] != "rel" else "")
+            w = op[1]
+            if w == "check":
+                sec = 0
+                last_r = "check" if op[2] else "check->exit"
+            elif w == "acq":
+                sec += 1
+            elif w == "rel":
+                last_r = f"sec{sec}-rel"
+            elif w in ("poll", "read", "add_watch"):
+                last_r = w
+            elif w == "close":
+                last_r = "reader-close"
     return "no-close"
 
 
@@ -558,66 +586,52 @@ def run_proto(ctx, res: Result, root):
         meta = {"part": "proto", "scenario": scen[0], "schedule": kind, "choices": choices}
         res.evaluations += 1
         res.hist("proto_scenario", scen[0])
+        res.hist("proto_schedule_kind", kind.split("@")[0])
         res.hist("close_placed_after_reader_op", placement(run["ops"]))
         if s.deadlock:
             res.hist("proto_deadlock", scen[0])
-            res.notes.append(f"deadlock in {scen[0]}: {s.deadlock}") if len(res.notes) < 5 else None
+            if len(res.notes) < 5:
+                res.notes.append(f"deadlock in {scen[0]}: {s.deadlock}")
         if s.livelock:
             res.hist("proto_livelock", scen[0])
         for tn, ex in s.uncaught():
             res.hist("proto_uncaught", f"{tn}:{type(ex).__name__}")
         if interleaved(run["ops"]):
             res.nontrivial.add(core.digest([scen[0], [op[:-2] for op in run["ops"]]]))
-        if len(res.samples) < 3 and interleaved(run["ops"]):
-            res.samples.append({"scenario": scen[0], "ops": show_ops(run["ops"])})
+            if len(res.samples) < 3 and len(run["ops"]) > 12:
+                res.samples.append({"scenario": scen[0], "schedule": kind, "ops": show_ops(run["ops"])})
         for law, obs, exp in oracle_proto(run):
             res.failures.append(Failure(
                 what=f"close protocol ({scen[0]}): {law}", case=meta,
                 signature={"part": "proto", "law": law}, observed={"what": obs, "ops": show_ops(run["ops"])[-14:]},
                 expected=exp))
-        batch.append((meta, run))
-        return run
+        # keep the batch small: the scheduler object is not needed for the lock-step comparison
+        batch.append((meta, {"ops": run["ops"], "reader_done": run["reader_done"], "have_reader": run["have_reader"],
+                             "uncaught": bool(s.uncaught())}))
+        return s
 
     # corpus first
     for c in ctx.corpus():
         if c.get("part") == "proto":
             scen = next(sc for sc in SCENARIOS if sc[0] == c["scenario"])
             one(ds.ReplayChooser(c["choices"]), scen, "corpus")
-    if not ctx.thorough:
-        for scen in SCENARIOS:
-            for k in range(0, 40):
-                one(PlacedChooser(k, rng.randrange(1 << 30)), scen, f"placed@{k}")
-            for _ in range(30):
-                one(ds.RandomChooser(rng.randrange(1 << 30), switch_prob=0.4, tick_prob=0.0), scen, "random")
-    else:
-        for scen in SCENARIOS:
-            for k in range(0, 60):
-                one(PlacedChooser(k, rng.randrange(1 << 30)), scen, f"placed@{k}")
+    n_steps, n_ops, n_rand = (40, 16, 30) if not ctx.thorough else (70, 24, 150)
+    for scen in SCENARIOS:
+        for k in range(n_steps):
+            one(PlacedChooser(k, rng.randrange(1 << 30)), scen, f"placed-step@{k}")
+        for k in range(n_ops):
+            for _ in range(2):
+                one(PlacedChooser(k, rng.randrange(1 << 30), by_reader_ops=True), scen, f"placed-readerop@{k}")
+        for _ in range(n_rand):
+            one(ds.RandomChooser(rng.randrange(1 << 30), switch_prob=0.4, tick_prob=0.0), scen, "random")
+        if ctx.thorough:
             n = 0
-            for s in ds.explore(lambda ch: one_explore(ch, scen, root, res, batch), preemption_bound=2, max_runs=1500):
+            for _ in ds.explore(lambda ch: one(ch, scen, "explore"), preemption_bound=2, max_runs=1200):
                 n += 1
             res.hist("explore_runs", f"{scen[0]}:{n}")
-            for _ in range(100):
-                one(ds.RandomChooser(rng.randrange(1 << 30), switch_prob=0.4, tick_prob=0.0), scen, "random")
-        res.notes.append("thorough: ds.explore with <= 2 pre-emptions per scenario (max 1500 runs each)")
+    if ctx.thorough:
+        res.notes.append("thorough: ds.explore, every schedule with <= 2 pre-emptions per scenario (capped at 1200 runs each)")
     check_lockstep(res, batch)
-
-
-def one_explore(chooser, scen, root, res, batch):
-    run = run_proto_once(chooser, scen, root)
-    s = run["sched"]
-    meta = {"part": "proto", "scenario": scen[0], "schedule": "explore", "choices": [c for _, c in s.choices]}
-    res.evaluations += 1
-    res.hist("proto_scenario", scen[0])
-    res.hist("close_placed_after_reader_op", placement(run["ops"]))
-    if interleaved(run["ops"]):
-        res.nontrivial.add(core.digest([scen[0], [op[:-2] for op in run["ops"]]]))
-    for law, obs, exp in oracle_proto(run):
-        res.failures.append(Failure(
-            what=f"close protocol ({scen[0]}): {law}", case=meta, signature={"part": "proto", "law": law},
-            observed={"what": obs, "ops": show_ops(run["ops"])[-14:]}, expected=exp))
-    batch.append((meta, run))
-    return s
 
 
 # --------------------------------------------------------------------------- part (b): fault injection
@@ -664,7 +678,9 @@ def run_fault_once(level, faults, root):
                 out["threads_now"] = lib_alive()
                 if out["raised"] is None:
                     fd = k.inotify_fd()
-                    out["wds"] = sorted(em._inotify._inotify._wd_for_path.values()) if em._inotify else None
+                    # which of the three directories the kernel really watches (public: the kernel's side)
+                    watched = {w["path"] for w in k.fds[fd]["watches"].values()} if fd is not None else set()
+                    out["wds"] = [int(os.fsencode(p) in watched) for p in (root, os.path.join(root, "a"), os.path.join(root, "a", "b"))]
                     em.stop()
                     em.join()
             elif level == "schedule":
@@ -771,7 +787,7 @@ def run_faults(ctx, res: Result, root):
             model = ["raised", m[1], int(m[2]), int(m[3])]
         else:
             impl = ["built", o["wds"] if meta["level"] == "emitter" else None, len(o["leaked_now"] or []), len(o["threads_now"] or [])]
-            model = ["built", [int(x) for x in m[1]] if meta["level"] == "emitter" else None, int(m[2]), int(m[3])]
+            model = ["built", [int(int(x) != -1) for x in m[1]] if meta["level"] == "emitter" else None, int(m[2]), int(m[3])]
         if kind is None and m[0] == "raised" or kind is not None and m[0] != "raised":
             impl[0] = "raised" if kind is not None else "built"
         if impl != model:
